@@ -412,8 +412,16 @@ class Interp:
                 self.event("type", f"unknown operator {op}", e)
             if type(v) is Fraction and v.denominator == 1:
                 v = int(v)
-            if self.want_exact and e.type.is_real_scalar() and not fits(v, e.type):
-                self.res.exact_ok = False
+            if self.want_exact and e.type.is_real_scalar():
+                if not fits(v, e.type):
+                    self.res.exact_ok = False
+                else:
+                    # a fractional literal next to an integer-typed operand is cast to that
+                    # integer type in C (0.5 -> 0)
+                    for o, other in ((e.lhs, e.rhs), (e.rhs, e.lhs)):
+                        if type(o) is _S.Const and isinstance(o.val, float) and o.val != int(o.val):
+                            if type(e.type).__name__ in _INT_RANGES or type(other.type).__name__ in _INT_RANGES:
+                                self.res.exact_ok = False
             if self.res.range_obs is not None and e.type.is_indexable():
                 self._obs(e, v)
             return v
